@@ -272,6 +272,10 @@ def build_cells(lib):
     out("QGMRESSolver.solve", "mismatched_rhs_short", lambda A, b: sv.QGMRESSolver().solve(A, b), Q(A33), Q(gen(2, 1)))
     out("QGMRESSolver.solve", "mismatched_rhs_scalar", lambda A, b: sv.QGMRESSolver().solve(A, b), Q(A33), Q(gen(1, 1)))
     out("QGMRESSolver.solve", "mismatched_rhs_long", lambda A, b: sv.QGMRESSolver().solve(A, b), Q(A33), Q(gen(4, 1)))
+    for prec_ in (None, "none", "left_lu"):
+        for rows_ in (1, 2, 4, 6, 9):  # matrix is 3 x 3: every other row count of the right-hand side is a shape-coupled mismatch
+            out("QGMRESSolver.solve", f"mismatched_rhs_rows={rows_}_prec={prec_}", (lambda p_: (lambda A, b: sv.QGMRESSolver(preconditioner=p_).solve(A, b)))(prec_), Q(A33), Q(gen(rows_, 1, 5)))
+        out("QGMRESSolver.solve", f"mismatched_rhs_two_columns_prec={prec_}", (lambda p_: (lambda A, b: sv.QGMRESSolver(preconditioner=p_).solve(A, b)))(prec_), Q(A33), Q(gen(3, 2, 5)))
     out("QGMRESSolver.solve", "complex_dtype", lambda A, b: sv.QGMRESSolver().solve(A, b), cplx3.copy(), np.ones((3, 1), dtype=complex))
     out("QGMRESSolver.solve", "unknown_option_preconditioner", lambda A, b: sv.QGMRESSolver(preconditioner="ilu").solve(A, b), Q(A33), Q(b3))
     inn("QGMRESSolver.solve", "boundary_1x1", lambda A, b: sv.QGMRESSolver().solve(A, b), Q(spd_tall(1, 1)), Q(gen(1, 1, 3)))
